@@ -44,6 +44,7 @@ def bigSpec (op : String) (args : List String) : Option String :=
   | "div", [a, b] => do
       let (x, _) ← parseBigTok a; let (y, _) ← parseBigTok b
       if y = 0 then none else pure (toHex (x / y) ++ " " ++ toHex (x % y))
+  | "u128", [a] => do let (x, _) ← parseBigTok a; if x < 2 ^ 128 then pure (toHex x) else none
   | "shl", [a, n] => do let (x, _) ← parseBigTok a; let k ← n.toNat?; pure (toHex (x <<< k))
   | "shr", [a, n] => do let (x, _) ← parseBigTok a; let k ← n.toNat?; pure (toHex (x >>> k))
   | "mask", [a, n] => do let (x, _) ← parseBigTok a; let k ← n.toNat?; pure (toHex (x % 2 ^ k))
@@ -112,6 +113,7 @@ def bigModel (op : String) (args : List String) : Option String :=
   | "bin", [a] => do let x ← lim a; pure (Limbs.asBinary x)
   | "flags", [a] => do let x ← lim a
                        pure (b01 (Limbs.isZero x) ++ " " ++ b01 (x.headD 0 % 2 == 0) ++ " " ++ b01 (x.headD 0 % 2 == 1))
+  | "u128", [a] => do let x ← lim a; if Limbs.val x < 2 ^ 128 then pure (hv x) else none
   | "allones", [n] => do let k ← n.toNat?; pure (hv (Limbs.all1s k))
   | "onehot", [n] => do let k ← n.toNat?; pure (hv (Limbs.oneHot k))
   | _, _ => none
@@ -165,12 +167,27 @@ def progStep (regs : Array Flt) (ins : String) : Option Flt :=
      | "fromi64" => (match parseSem a, b.toInt? with | some F, some n => some (fromI64 F n) | _, _ => none)
      | "frombig" => (match parseSem a, parseHex b with | some F, some n => some (fromBigint F n) | _, _ => none)
      | "powi" => (match a.toNat?, reg b with | some n, some x => some (x.powi n) | _, _ => none)
+     | "one" => (match parseSem a with | some F => some (Flt.one F (b == "1")) | none => none)
+     | "setsign" => (match reg b with | some x => some (x.setSign (a == "1")) | none => none)
+     | "const" =>
+       (match parseSem b with
+        | some F => (match a with
+                     | "pi" => piFuel 200 F | "e" => some (eConst F) | "ln2" => some (ln2Const F) | _ => none)
+        | none => none)
+     | "fn" =>
+       (match reg b with
+        | some x => (match a with
+                     | "exp" => x.expFuel 1000000 | "log" => x.logFuel 100000 | "sigmoid" => x.sigmoidFuel 1000000
+                     | "sin" => x.sinFuel 200 | "cos" => x.cosFuel 200 | "tan" => x.tanFuel 200
+                     | "sqr" => some x.sqr | _ => none)
+        | none => none)
      | _ =>
        (match reg a, reg b with
         | some x, some y =>
           (match op with
            | "min" => some (x.min y) | "max" => some (x.max y)
            | "rem" => x.remFuel 4000000 y
+           | "pow" => x.powFuel 100000 y
            | "oadd" => some (x.add y) | "osub" => some (x.sub y)
            | "omul" => some (x.mul y) | "odiv" => some (x.div y)
            | _ => none)
